@@ -8,6 +8,7 @@ import (
 	"os/exec"
 	"path/filepath"
 	"sync"
+	"time"
 
 	"github.com/boombuler/barcode"
 	"github.com/boombuler/barcode/aztec"
@@ -218,7 +219,17 @@ func runJobs(bin string, dir string, jobs []histJob, par int, env []string) ([]*
 			e, _ := os.Create(ef)
 			cmd.Stdout, cmd.Stderr = e, e
 			cmd.Env = append(os.Environ(), env...)
-			err := cmd.Run()
+			err := cmd.Start()
+			if err == nil {
+				done := make(chan error, 1)
+				go func() { done <- cmd.Wait() }()
+				select {
+				case err = <-done:
+				case <-time.After(20 * time.Minute):
+					cmd.Process.Kill()
+					err = fmt.Errorf("outer wall-clock watchdog (inconclusive)")
+				}
+			}
 			e.Close()
 			var r histResult
 			ob, rerr := os.ReadFile(of)
